@@ -36,6 +36,11 @@ func VerifAncillary(in []byte, k int) []byte {
 // VerifBuildPNG builds signature, IHDR (13 symbolic bytes: all widths, heights, bit
 // depths, colour types, interlace bytes at once, symbolic CRC), k ancillary chunks,
 // and the start of an IDAT chunk. It returns the file and the IHDR payload.
+// VerifBigAncillary > 0 makes VerifBuildPNG insert a tEXt chunk of that many (concrete)
+// bytes right after IHDR: an ancillary structure longer than an internal buffer, or than
+// what a slow source delivers in a hundred reads.
+var VerifBigAncillary = 0
+
 func VerifBuildPNG(k int) (in []byte, ihdr []byte) {
 	in = append(in, VerifSig...)
 	in = append(in, verifPutBE32(13)...)
@@ -43,6 +48,12 @@ func VerifBuildPNG(k int) (in []byte, ihdr []byte) {
 	ihdr = verifBytes(13)
 	in = append(in, ihdr...)
 	in = append(in, verifBytes(4)...)
+	if VerifBigAncillary > 0 {
+		in = append(in, verifPutBE32(VerifBigAncillary)...)
+		in = append(in, "tEXt"...)
+		in = append(in, make([]byte, VerifBigAncillary)...)
+		in = append(in, 0, 0, 0, 0)
+	}
 	in = VerifAncillary(in, k)
 	in = append(in, verifPutBE32(3)...)
 	in = append(in, "IDAT"...)
@@ -86,4 +97,11 @@ func VerifHarness_C05_PNG_ICC() {
 	verifAssert(md.PixelHeight == verifBE32(ihdr[4:8]), "PNG+iCCP PixelHeight = BE32 IHDR+4")
 	verifAssert(md.BitsPerComponent == uint32(ihdr[8]), "PNG+iCCP BitsPerComponent = IHDR+8")
 	verifAssert(md.Format == "PNG", "PNG+iCCP Format = PNG")
+}
+
+// VerifHarness_C05_PNG_Big: the same obligations with a 5000-byte ancillary chunk before
+// the image data (the basic fields must not depend on how much ancillary data precedes).
+func VerifHarness_C05_PNG_Big() {
+	VerifBigAncillary = 5000
+	VerifHarness_C05_PNG()
 }
